@@ -2,15 +2,22 @@
 package c05
 
 import (
+	"archive/tar"
+	"bytes"
+	"context"
 	"encoding/json"
 	"errors"
 	"fmt"
 	"io/fs"
 	"os"
+	"sort"
 	"strings"
 	"testing"
+	"time"
 
 	"github.com/hack-pad/hackpadfs"
+	"github.com/hack-pad/hackpadfs/cache"
+	htar "github.com/hack-pad/hackpadfs/tar"
 	"pgregory.net/rapid"
 
 	"verifharness/internal/gen"
@@ -248,6 +255,181 @@ func TestSubMem(t *testing.T)     { run(t, "submem") }
 func TestSubSub(t *testing.T)     { run(t, "subsub") }
 func TestSubMountPt(t *testing.T) { run(t, "submountpt") }
 
+// ------------------------------------------------------------------ read-only layers: cache and tar
+
+// ROCase: a source tree (setup ops), then probes through the read-only layer.
+type ROCase struct {
+	Layer  string   `json:"layer"` // cache, tar
+	Setup  []ops.Op `json:"setup"`
+	Probes []ops.Op `json:"probes"`
+}
+
+func buildRO(c ROCase, ref *world.World) hackpadfs.FS {
+	src := subj.NewMem()
+	for _, op := range c.Setup {
+		_ = ops.ApplyFS(src, op)
+		_ = ops.ApplyOS(ref.Root, op)
+	}
+	if c.Layer == "cache" {
+		cfs, err := cache.NewReadOnlyFS(src, subj.NewMem(), cache.ReadOnlyOptions{})
+		if err != nil {
+			panic(err)
+		}
+		return cfs
+	}
+	snap, _ := ops.SnapFS(src)
+	var names []string
+	for p := range snap {
+		if p != "." {
+			names = append(names, p)
+		}
+	}
+	sort.Strings(names)
+	var buf bytes.Buffer
+	tw := tar.NewWriter(&buf)
+	for _, p := range names {
+		n := snap[p]
+		var err error
+		if n.Kind == 'd' {
+			err = tw.WriteHeader(&tar.Header{Name: p + "/", Typeflag: tar.TypeDir, Mode: int64(n.Perm)})
+		} else {
+			err = tw.WriteHeader(&tar.Header{Name: p, Typeflag: tar.TypeReg, Mode: int64(n.Perm), Size: int64(len(n.Data))})
+			if err == nil {
+				_, err = tw.Write([]byte(n.Data))
+			}
+		}
+		if err != nil {
+			panic(err)
+		}
+	}
+	if err := tw.Close(); err != nil {
+		panic(err)
+	}
+	tfs, err := htar.NewReaderFS(context.Background(), &buf, htar.ReaderFSOptions{})
+	if err != nil {
+		panic(err)
+	}
+	select {
+	case <-tfs.Done():
+	case <-time.After(vf.WatchdogDur()):
+		panic("tar unpack did not finish")
+	}
+	return tfs
+}
+
+func checkRO(c ROCase) (string, string, bool) {
+	ref := world.New()
+	defer ref.Close()
+	fsys := buildRO(c, ref)
+	nontrivial := false
+	for _, op := range c.Probes {
+		base := fmt.Sprintf("C05/%s %s", c.Layer, op.K)
+		sr := ops.ApplyFS(fsys, op)
+		if sr.Hung || sr.Panic != "" {
+			return base + ":crash", fmt.Sprintf("%v: %v", op, sr), nontrivial
+		}
+		switch op.K {
+		case "stat", "open", "readdir", "readfile":
+			rr := ops.ApplyOS(ref.Root, op)
+			if rr.OK() || sr.OK() {
+				continue // success divergence (e.g. ReadFile of a directory) is not this property's subject
+			}
+			if gen.Depth(op.P) >= 2 {
+				nontrivial = true
+			}
+			if what, msg := CompareErr(op, ref.Root, rr.Err, sr.Err); what != "" {
+				return base + ":" + what, msg, nontrivial
+			}
+		default:
+			// Whether a mutation reaches the layer's own copy (Chmod through the cached handle succeeds) is not this
+			// property's subject; a failing one must be typed and name the caller's path, whatever the reason
+			// (unsupported -> ErrNotImplemented, or the open inside the helper failing).
+			if sr.OK() {
+				continue
+			}
+			if errors.Is(sr.Err, hackpadfs.ErrNotImplemented) {
+				nontrivial = true
+			}
+			if what, msg := CompareErr(op, ref.Root, nil, sr.Err); what == "type" || what == "path" {
+				return base + ":mut-" + what, msg, nontrivial
+			}
+		}
+	}
+	return "", "", nontrivial
+}
+
+func genRO(rt *rapid.T, layer string) ROCase {
+	c := ROCase{Layer: layer}
+	scratch := subj.NewMem()
+	n := rapid.IntRange(0, 6).Draw(rt, "nsetup")
+	for i := 0; i < n; i++ {
+		snap, _ := ops.SnapFS(scratch)
+		tr := gen.TreeOf(snap)
+		k := rapid.SampledFrom([]string{"mkdir", "mkdirall", "writefile", "writefile"}).Draw(rt, "skind")
+		op := ops.Op{K: k, P: gen.Path(rt, tr, gen.Names, 3, false, "sp"), Perm: 0o755}
+		if k == "writefile" {
+			op.Perm = 0o644
+			op.Data = gen.Payload(rt, 8, "sdata")
+		}
+		_ = ops.ApplyFS(scratch, op)
+		c.Setup = append(c.Setup, op)
+	}
+	snap, _ := ops.SnapFS(scratch)
+	tr := gen.TreeOf(snap)
+	np := rapid.IntRange(1, 8).Draw(rt, "nprobes")
+	for i := 0; i < np; i++ {
+		k := rapid.SampledFrom([]string{"stat", "stat", "open", "readdir", "readfile", "mkdir", "remove", "rename", "chmod", "writefile", "openfile"}).Draw(rt, "pk")
+		op := ops.Op{K: k, P: gen.Path(rt, tr, gen.Names, 3, true, "pp"), Perm: 0o644}
+		switch k {
+		case "rename":
+			op.P2 = gen.Path(rt, tr, gen.Names, 3, true, "pp2")
+		case "writefile":
+			op.Data = []byte("x")
+		case "openfile":
+			op.Flag = os.O_WRONLY | os.O_CREATE
+		}
+		c.Probes = append(c.Probes, op)
+	}
+	return c
+}
+
+func runRO(t *testing.T, layer string) {
+	vf.Check(t, layer, func(rt *rapid.T, rec *vf.Rec) {
+		c := genRO(rt, layer)
+		rec.Step(c)
+		sig, msg, nt := checkRO(c)
+		if nt {
+			rec.NonTrivial()
+		}
+		if sig != "" {
+			rec.Failf(rt, sig, "%s", msg)
+		}
+	})
+}
+
+func TestCacheLayer(t *testing.T) { runRO(t, "cache") }
+func TestTarLayer(t *testing.T)   { runRO(t, "tar") }
+
+func TestReplayRO(t *testing.T) {
+	for _, layer := range []string{"cache", "tar"} {
+		layer := layer
+		t.Run(layer, func(t *testing.T) {
+			vf.Replay(t, layer, func(steps []json.RawMessage) (string, string) {
+				for _, raw := range steps {
+					var c ROCase
+					if err := json.Unmarshal(raw, &c); err != nil {
+						return "bad-replay", err.Error()
+					}
+					if sig, msg, _ := checkRO(c); sig != "" {
+						return sig, msg
+					}
+				}
+				return "", ""
+			})
+		})
+	}
+}
+
 func TestReplayAll(t *testing.T) {
 	for _, kind := range kinds {
 		kind := kind
@@ -272,4 +454,4 @@ func TestReplayAll(t *testing.T) {
 }
 
 func knownSig(kind string, op ops.Op, situation string) string { return "" }
-func registerProbes()                                           {}
+func registerProbes()                                          {}
